@@ -290,17 +290,17 @@ def bounded(tier, seed, repo_root):
     res = pmap(_alias_job, jobs, repo_root, job_timeout=120, on_timeout=timeout_failure('C14'))
     fails = [f for fs in res for f in fs]
     cases = _explicit_type_cases()
-    for r in pmap(_run_case, cases, repo_root, job_timeout=120, on_timeout=_case_timeout):
+    for r in pmap(_run_case, cases, repo_root, job_timeout=120, on_timeout=_case_timeout, skip_result=None):
         if r:
             fails.append(r)
     mcases = _mode_cases()
-    for r in pmap(_run_mode_case, mcases, repo_root, job_timeout=120, on_timeout=_case_timeout):
+    for r in pmap(_run_mode_case, mcases, repo_root, job_timeout=120, on_timeout=_case_timeout, skip_result=None):
         if r:
             fails.append(r)
     # a file whose type cannot be determined (unknown suffix, no explicit type) in either position
     ecases = [{'flags': [], 'sa': '.gtunknownext', 'sb': '.json'}, {'flags': [], 'sa': '.json', 'sb': '.gtunknownext'},
               {'flags': ['--from-json'], 'sa': '.gtunknownext', 'sb': '.gtunknownext'}]
-    for r in pmap(_run_error_case, ecases, repo_root, job_timeout=120, on_timeout=_case_timeout):
+    for r in pmap(_run_error_case, ecases, repo_root, job_timeout=120, on_timeout=_case_timeout, skip_result=None):
         if r:
             fails.append(r)
     return [{
